@@ -64,41 +64,45 @@ GenTables ==
 Tables == GenTables \cup (IF WithBuiltin THEN {BuiltinBase, BuiltinAll} ELSE {})
 
 -----------------------------------------------------------------------------
-(* escapeData                                                                                *)
-EscByte(T, b) == IF b \in Keys(T) THEN <<Leader, Code(T, b)>> ELSE <<b>>
-Escape(T, s)  == FoldLeft(LAMBDA acc, b : acc \o EscByte(T, b), <<>>, s)
+(* escapeData.  EscFn / InvFn: the two lookup arrays of the Go table as functions.            *)
+EscFn(T) == [b \in Keys(T) |-> Code(T, b)]
+InvFn(T) == [c \in Codes(T) |-> Inv(T, c)]
+
+EscapeF(f, s) == FoldLeft(LAMBDA acc, b : IF b \in DOMAIN f THEN acc \o <<Leader, f[b]>> ELSE Append(acc, b), <<>>, s)
+Escape(T, s)  == LET f == EscFn(T) IN EscapeF(f, s)
 
 RestOf(s, i) == SubSeq(s, i + 1, Len(s))
 
 (* Reference decoder: one byte at a time, `pend` = a leader is waiting for its code.         *)
 Acc0 == [out |-> <<>>, pend |-> FALSE, bad |-> FALSE]
-DecStep(T, a, b) ==
+DecStep(g, a, b) ==
     IF a.bad THEN a
     ELSE IF a.pend
-         THEN IF HasInv(T, b) THEN [out |-> Append(a.out, Inv(T, b)), pend |-> FALSE, bad |-> FALSE]
+         THEN IF b \in DOMAIN g THEN [out |-> Append(a.out, g[b]), pend |-> FALSE, bad |-> FALSE]
               ELSE [a EXCEPT !.bad = TRUE]
          ELSE IF b = Leader THEN [a EXCEPT !.pend = TRUE]
               ELSE [a EXCEPT !.out = Append(@, b)]
-DecodeFrom(T, a, w) == FoldLeft(LAMBDA x, b : DecStep(T, x, b), a, w)
+DecodeFrom(T, a, w) == LET g == InvFn(T) IN FoldLeft(LAMBDA x, b : DecStep(g, x, b), a, w)
 RefDecode(T, w)     == DecodeFrom(T, Acc0, w)
 
-(* unescapeData(d, table, dst): i = loop index (0-based as in Go), buf = dst[:idx].          *)
+(* unescapeData(d, table, dst): g = unescapeCodes, i = loop index (0-based as in Go),        *)
+(* buf = dst[:idx], n = len(dst).                                                            *)
 RECURSIVE UnescLoop(_, _, _, _, _)
-UnescLoop(T, d, n, i, buf) ==
+UnescLoop(g, d, n, i, buf) ==
     IF i >= Len(d) THEN [buf |-> buf, rem |-> <<>>, err |-> FALSE]
     ELSE IF d[i + 1] = Leader
          THEN IF i = Len(d) - 1
               THEN [buf |-> buf, rem |-> <<Leader>>, err |-> FALSE]       \* lone trailing leader is handed back
-              ELSE IF ~HasInv(T, d[i + 2])
+              ELSE IF d[i + 2] \notin DOMAIN g
                    THEN [buf |-> <<>>, rem |-> <<>>, err |-> TRUE]         \* "Unknown escape code"
-                   ELSE LET b2 == Append(buf, Inv(T, d[i + 2])) IN
+                   ELSE LET b2 == Append(buf, g[d[i + 2]]) IN
                         IF Len(b2) = n THEN [buf |-> b2, rem |-> RestOf(d, i + 2), err |-> FALSE]
-                        ELSE UnescLoop(T, d, n, i + 2, b2)
+                        ELSE UnescLoop(g, d, n, i + 2, b2)
          ELSE LET b2 == Append(buf, d[i + 1]) IN
               IF Len(b2) = n THEN [buf |-> b2, rem |-> RestOf(d, i + 1), err |-> FALSE]
-              ELSE UnescLoop(T, d, n, i + 1, b2)
+              ELSE UnescLoop(g, d, n, i + 1, b2)
 (* dstLen = 0: dst is nil/empty, the function allocates len(d) bytes                         *)
-UnescapeCall(T, d, dstLen) == UnescLoop(T, d, IF dstLen = 0 THEN Len(d) ELSE dstLen, 0, <<>>)
+UnescapeCall(T, d, dstLen) == LET g == InvFn(T) IN UnescLoop(g, d, IF dstLen = 0 THEN Len(d) ELSE dstLen, 0, <<>>)
 
 -----------------------------------------------------------------------------
 VARIABLES table,    \* the announced table
@@ -224,7 +228,7 @@ TypeOK ==
 
 (* Nothing the escaper emits is a protected byte of the table, whatever the payload.         *)
 NoProtectedByte ==
-    mode = "esc" => \A i \in 1..Len(wire) : wire[i] \notin Protected(table)
+    mode = "esc" => LET P == Protected(table) IN \A i \in 1..Len(wire) : wire[i] \notin P
 
 (* The escaper's output does not depend on how the payload was cut into Write calls.          *)
 WireIsEscape ==
